@@ -164,6 +164,17 @@ fn parse_json<T>(json: &str, context: &str) -> Result<T, MdkUniffiError>
 where
     T: serde::de::DeserializeOwned,
 {
+    // A Nostr event kind is a 16-bit number, but the event deserializer truncates larger ones
+    // (`"kind": 65979` would be read as kind 443), so the text of an event of a different kind
+    // would pass for a key package, welcome or group message. Refuse such a `kind` up front.
+    if let Ok(serde_json::Value::Object(fields)) = serde_json::from_str::<serde_json::Value>(json)
+        && let Some(kind) = fields.get("kind")
+        && kind.as_u64().is_none_or(|k| k > u64::from(u16::MAX))
+    {
+        return Err(MdkUniffiError::InvalidInput(format!(
+            "Invalid {context}: kind out of range"
+        )));
+    }
     serde_json::from_str(json)
         .map_err(|e| MdkUniffiError::InvalidInput(format!("Invalid {context}: {e}")))
 }
